@@ -464,8 +464,9 @@ pub struct World<S: PtpInstanceStateMutex + 'static> {
     pub ctxs: Vec<Vec<Option<TimestampContext>>>,
     pub fwd: Vec<TlvForwarder>,
     pub vals: Vals,
-    /// frames emitted by the last event, per action (decoded independently)
     pub panics: u32,
+    /// include the raw octets of emitted frames in the abstract actions (network simulations deliver them)
+    pub keep_bytes: bool,
 }
 
 impl<S: PtpInstanceStateMutex + 'static> Drop for World<S> {
@@ -623,6 +624,7 @@ impl<S: PtpInstanceStateMutex + 'static> World<S> {
             fwd,
             vals,
             panics: 0,
+            keep_bytes: false,
         }
     }
 
@@ -700,6 +702,7 @@ impl<S: PtpInstanceStateMutex + 'static> World<S> {
                     o.insert("a".into(), json!("E"));
                     o.insert("ll".into(), json!(ll));
                     o.insert("ctx".into(), json!(self.ctxs[p].len()));
+                    if self.keep_bytes { o.insert("hex".into(), json!(wire::hex(&data))); }
                     out.push(f);
                 }
                 RawAct::SendGeneral(data, ll) => {
@@ -707,6 +710,7 @@ impl<S: PtpInstanceStateMutex + 'static> World<S> {
                     let o = f.as_object_mut().unwrap();
                     o.insert("a".into(), json!("G"));
                     o.insert("ll".into(), json!(ll));
+                    if self.keep_bytes { o.insert("hex".into(), json!(wire::hex(&data))); }
                     out.push(f);
                 }
                 RawAct::Forward(tlv) => {
